@@ -4,6 +4,7 @@
 #include "x_unittest_base.h"
 #include "contracts/C19_unittest.h"
 #include "x_expect_generic.c"
+#include "x_macros.h"      /* the expect_* macros, verbatim: the helper may be written in terms of them */
 #ifdef ER_SPECIALISATION
 #include "x_expect_raises_exception.inc"
 #else
